@@ -85,7 +85,7 @@ func c06Standalone(r *core.Run) {
 		shared.ZZRunLateHooks()
 		for i := 0; i < n; i++ {
 			c := &c06bCmd{ID: i, Exit: -1}
-			c.Case = genSignCase(t, fmt.Sprintf("%dc%d", r.No, i), []string{"ps", "pe-coff", "cat", "msi", "jar", "appmanifest", "deb"})
+			c.Case = genSignCase(t, fmt.Sprintf("%dc%d", r.No, i), []string{"ps", "pe-coff", "cat", "msi", "jar", "appmanifest", "deb", "vsix", "mach-o"})
 			c.Key = pickKey(t, c.Case)
 			in := w.Path("work-" + c.Case.File)
 			out := w.Path("signed-" + c.Case.File)
